@@ -299,21 +299,25 @@ Proof.
   destruct b; [right; intros [_ H]; discriminate|left; auto].
 Qed.
 
-Theorem pmerge_rep : forall fuel t, (depth t < fuel)%nat -> Good T defref v t -> forall F g inh a,
+(* the fuel only has to cover the depth of the master, or of the model it is merged into *)
+Theorem pmerge_rep_gen : forall fuel t, Good T defref v t -> forall F g inh a,
+  (depth t < fuel \/ hdepth a < fuel)%nat -> (forall f, In f (g :: F) -> fver f = Some v) ->
   ~ In g F -> In g (mfiles t) -> Rep T F inh t a ->
   exists a', pmerge T LATEST defref fver fuel a (inF F (mfiles t)) (pview g t) g = Val (OK a') /\
              h_local a' = h_local a /\
              forall inh', Rep T (g :: F) inh' t (h_set_local a' (norm inh' (inF (g :: F) (mfiles t)))).
 Proof.
-  induction fuel as [|fl IH]; intros [name ty attrs content comment files] Hd HG F g inh a HgF Hg HR; [lia|].
-  rewrite depth_unfold in Hd. cbn [mfiles m_fileset] in *.
+  induction fuel as [|fl IH]; intros [name ty attrs content comment files] HG F g inh a Hd Hfv HgF Hg HR; [destruct Hd; lia|].
+  cbn [mfiles m_fileset] in *.
   pose proof HG as HG0.
   apply Good_unfold in HG as (Hs & Hne & (Hsub & (sp & Hsp) & Hnd & Hkind & (kcore & Hks & Hinj & Hid)) & Hkids).
   apply Rep_unfold in HR as (HS & hc & hc' & -> & HI & HP & Hord).
   set (S := inF F files) in *.
   assert (HS' : inF (g :: F) files = set_add g S) by (apply inF_cons_in; auto).
   rewrite pmerge_unfold. cbn [h_ty h_content]. rewrite pview_unfold. cbn [h_content].
-  rewrite (pfmv LATEST v fver fver_v S HS), fver_v, N.min_id. cbv zeta. rewrite Hsp. cbn [bind].
+  assert (HfvS : forall f, In f S -> fver f = Some v).
+  { intros f Hf. apply Hfv. right. apply inF_in in Hf as [_ Hf]. exact Hf. }
+  rewrite (pfmv_on LATEST v fver S HS HfvS), (Hfv g (or_introl eq_refl)), N.min_id. cbv zeta. rewrite Hsp. cbn [bind].
   destruct Hkind as [Hleaf|(Hcont & Hkind)].
   - (* a leaf: nothing to merge *)
     apply (RepItems_leaf _ F S content hc' Hleaf) in HI. subst hc'.
@@ -387,8 +391,11 @@ Proof.
       assert (Hcin : In c ca) by (eapply nth_error_In; eauto).
       assert (Hck : In c ks) by (apply Ha; exact Hcin).
       pose proof (Hkids c Hck) as HGc. destruct (Good_files c HGc) as (Hsc & Hnec).
-      assert (Hdc : (depth c < fl)%nat).
-      { assert (In (inl c) content) by (apply kids_in; exact Hck). apply depth_items_in in H. lia. }
+      assert (Hdc : (depth c < fl \/ hdepth h < fl)%nat).
+      { destruct Hd as [Hd|Hd]; [left|right].
+        - rewrite depth_unfold in Hd. assert (In (inl c) content) by (apply kids_in; exact Hck). apply depth_items_in in H. lia.
+        - rewrite hdepth_unfold in Hd. assert (H : In (inl h) (map (@inl htree cdata) hs)) by (apply in_map; eapply nth_error_In; eauto).
+          apply hdepth_items_in in H. lia. }
       destruct (Rep_shape T F (Some S) c h Hr) as (_ & _ & Hloc & HneSc).
       set (Sc := inF F (mfiles c)) in *.
       assert (Hapa : In (pk_of (N.of_nat k) (kcore c)) pa).
@@ -407,7 +414,7 @@ Proof.
         rewrite Nat2N.id, nth_opt_map_inl, nth_error_map, Hj. cbn [option_map].
         rewrite Hloc, (eff_of_norm S Sc HneSc).
         assert (Hgc : In g (mfiles c)) by (apply set_mem_in; exact Eg).
-        destruct (IH c Hdc HGc F g (Some S) h HgF Hgc Hr) as (a' & Ea' & Hla' & Hra').
+        destruct (IH c HGc F g (Some S) h Hdc Hfv HgF Hgc Hr) as (a' & Ea' & Hla' & Hra').
         fold Sc in Ea'. rewrite Ea'. cbn [bind].
         eexists. split; [reflexivity|]. unfold Q.
         rewrite (bump_norm g S Sc a' HSs (inF_sset F _ Hsc) HgS (inF_notin g F _ HgF) HneSc); [|rewrite Hla'; exact Hloc].
@@ -507,6 +514,13 @@ Proof.
         rewrite Hp. reflexivity. }
       rewrite Efil. exact F1.
 Qed.
+
+Theorem pmerge_rep : forall fuel t, (depth t < fuel)%nat -> Good T defref v t -> forall F g inh a,
+  ~ In g F -> In g (mfiles t) -> Rep T F inh t a ->
+  exists a', pmerge T LATEST defref fver fuel a (inF F (mfiles t)) (pview g t) g = Val (OK a') /\
+             h_local a' = h_local a /\
+             forall inh', Rep T (g :: F) inh' t (h_set_local a' (norm inh' (inF (g :: F) (mfiles t)))).
+Proof. intros fuel t Hd HG F g inh a. apply pmerge_rep_gen; auto. Qed.
 
 End Main.
 
